@@ -4,10 +4,13 @@ The heap model proves (Theorems/C12_Heap.lean: C12_sep_history, C12_frame) that 
 mutable cells, so that no two live histograms share one and an in-place operation on one object cannot reach another.
 `sharing(regs)` lists the mutable components that two live objects of the IMPLEMENTATION share right now -- numpy memory
 of frequencies / errors2 (np.shares_memory, so views count), fixed-width binning objects (rewritten in place when an adaptive
-histogram grows; a non-adaptive one can be switched to adaptive), the meta-data dict -- and the components one object
+histogram grows; a non-adaptive one can be switched to adaptive), the meta-data dict, and every mutable container NESTED
+inside the meta-data values (lists, dicts, sets, arrays, ... found by walking the values recursively and comparing object
+identity, so a shared nested list is seen before any edit makes it visible) -- and the components one object
 shares with itself (frequencies and errors2 being one array).  Immutable sharing (static binnings, the INVALID_STATISTICS
-singleton) is not listed.  A non-empty list is a difference between model and implementation, not yet a violation: the
-check then looks for a mutation that makes the sharing visible (C12.neighbours)."""
+singleton, strings / numbers / tuples of such inside the meta data) is not listed.  A non-empty list is a difference between
+model and implementation, not yet a violation: the check then looks for a mutation that makes the sharing visible
+(C12.neighbours; the nested meta-data stream of C12 edits the shared container through one of the objects)."""
 from __future__ import annotations
 
 import numpy as np
@@ -24,6 +27,82 @@ def _mutable_binning(b) -> bool:
     return type(b).__name__ == "FixedWidthBinning" or bool(getattr(b, "is_adaptive", lambda: False)())
 
 
+# ------------------------------------------------------------------------------------------- nested meta-data values
+_MUTABLE_BUILTINS = (list, dict, set, bytearray, np.ndarray)
+
+
+def _is_mutable_container(v) -> bool:
+    return isinstance(v, _MUTABLE_BUILTINS)
+
+
+def _meta_of(h):
+    try:
+        md = h.meta_data            # the public property
+    except Exception:
+        md = getattr(h, "_meta_data", None)
+    return md if isinstance(md, dict) else None
+
+
+def meta_containers(h) -> list:
+    """every mutable container reachable from the meta-data VALUES of `h` (the meta-data dict itself is not listed), as
+    (path, object) in a deterministic order: keys of a dict in the order of their repr, items of a list / tuple in order.
+    A path is the list of keys / indices leading from the meta-data dict to the object.  Cycles are cut."""
+    md = _meta_of(h)
+    out: list = []
+    if md is None:
+        return out
+    seen: set = set()
+
+    def walk(v, path):
+        if isinstance(v, (list, dict, tuple)) or _is_mutable_container(v):
+            if id(v) in seen:
+                return
+            seen.add(id(v))
+        if _is_mutable_container(v):
+            out.append((path, v))
+        if isinstance(v, dict):
+            for k in sorted(v, key=repr):
+                walk(v[k], path + [k])
+        elif isinstance(v, (list, tuple)):
+            for n, item in enumerate(v):
+                walk(item, path + [n])
+
+    for k in sorted(md, key=repr):
+        walk(md[k], [k])
+    return out
+
+
+def path_text(path) -> str:
+    return "meta_data" + "".join(f"[{p!r}]" for p in path)
+
+
+def nested_meta_shared(x, y, cx=None, cy=None) -> list:
+    """[(path in x, path in y)] of the mutable containers inside the meta-data values that x and y share: the same object
+    (identity), or two arrays over the same memory  (cx, cy: meta_containers(x), meta_containers(y) when already known)"""
+    cx = meta_containers(x) if cx is None else cx
+    cy = meta_containers(y) if cy is None else cy
+    if not cx or not cy:
+        return []
+    by_id = {}
+    for p, v in cx:
+        by_id.setdefault(id(v), p)
+    out = []
+    for q, w in cy:
+        if id(w) in by_id:
+            out.append((by_id[id(w)], q))
+    ax = [(p, v) for p, v in cx if isinstance(v, np.ndarray)]
+    for q, w in cy:
+        if isinstance(w, np.ndarray) and id(w) not in by_id:
+            for p, v in ax:
+                try:
+                    if np.shares_memory(v, w):
+                        out.append((p, q))
+                        break
+                except Exception:
+                    pass
+    return out
+
+
 def sharing(regs) -> list:
     out = []
     live = [(i, h) for i, h in enumerate(regs) if h is not None and hasattr(h, "frequencies")]
@@ -33,6 +112,12 @@ def sharing(regs) -> list:
                 out.append([i, i, "frequencies/errors2"])
         except Exception:
             pass
+    conts = {}
+    for i, x in live:
+        try:
+            conts[i] = meta_containers(x)
+        except Exception:
+            conts[i] = []
     for a, (i, x) in enumerate(live):
         for j, y in live[a + 1:]:
             if x is y:
@@ -48,6 +133,9 @@ def sharing(regs) -> list:
                             out.append([i, j, f"binning[{p}]" if p == q else f"binning[{p}]/binning[{q}]"])
                 if getattr(x, "_meta_data", None) is not None and getattr(x, "_meta_data", 0) is getattr(y, "_meta_data", 1):
                     out.append([i, j, "meta_data"])
+                else:
+                    for p, q in (nested_meta_shared(x, y, conts[i], conts[j])[:4] if conts[i] and conts[j] else []):
+                        out.append([i, j, path_text(p) if p == q else f"{path_text(p)}/{path_text(q)}"])
             except Exception:
                 continue
     return out
